@@ -150,6 +150,18 @@ func (e *executor) loadRegion(st *State, id int, off smt.Term, n int) *Val {
 				bs[i] = Byte{V: intVal(smt.Select(m.Base, lit(uint64(o+int64(i)), 64)), 8)}
 			}
 		}
+	} else if cs, ok := e.offCases[off.S]; ok {
+		// the offset is one of a few constants: ite over reads at concrete offsets
+		var res *Val
+		for i := len(cs) - 1; i >= 0; i-- {
+			v := e.loadRegion(st, id, lit(uint64(cs[i].off), 64), n)
+			if res == nil {
+				res = v
+			} else {
+				res = e.mergeVal(cs[i].cond, v, res)
+			}
+		}
+		return res
 	} else {
 		fm := e.flush(m)
 		if fm != m {
@@ -212,6 +224,25 @@ func (e *executor) storeRegion(st *State, id int, off smt.Term, v *Val) {
 		}
 		for i := 0; i < n; i++ {
 			nm.Ov[o+int64(i)] = Byte{V: v, Idx: i}
+		}
+		st.mem[id] = nm
+		return
+	}
+	if cs, ok := e.offCases[off.S]; ok {
+		// the offset is one of a few constants: conditional update of the overlay
+		nm := &RegMem{Base: m.Base, Ov: make(map[int64]Byte, len(m.Ov)+n*len(cs))}
+		for k, b := range m.Ov {
+			nm.Ov[k] = b
+		}
+		for _, c := range cs {
+			for i := 0; i < n; i++ {
+				k := c.off + int64(i)
+				old, ok := nm.Ov[k]
+				if !ok {
+					old = Byte{V: intVal(smt.Select(m.Base, lit(uint64(k), 64)), 8)}
+				}
+				nm.Ov[k] = e.mergeByte(c.cond, Byte{V: v, Idx: i}, old)
+			}
 		}
 		st.mem[id] = nm
 		return
@@ -402,7 +433,7 @@ func (e *executor) mergeMem(c smt.Term, a, b *RegMem) *RegMem {
 						return &Val{W: 64, IsPtr: true, P: v.P}
 					}
 					if c, ok := bvConst(v.T); ok && c == 0 {
-						return e.nullPtr0
+						return e.nullPtr()
 					}
 					return nil
 				}
